@@ -541,13 +541,13 @@ func (g *GoBackNConn) sendPacketsForever() error {
 			case <-g.pingTicker.Ticks():
 				// We have not received anything for the ping
 				// time, but the window is full so we can't
-				// queue a ping packet. The packets in the
-				// queue are being resent though, and any
-				// response to them pauses the pong timer just
-				// like the response to a ping would. So we
-				// only start the pong timer here, to make sure
+				// queue a ping packet. Any response to the
+				// packets in the queue pauses the pong timer
+				// just like the response to a ping would. So
+				// we start the pong timer here, to make sure
 				// that a dead peer is also detected while we
-				// are sitting on a full window.
+				// are sitting on a full window, and then
+				// resend the queue as our probe (see below).
 				select {
 				case <-g.pongTicker.Ticks():
 					return errKeepaliveTimeout
@@ -562,6 +562,15 @@ func (g *GoBackNConn) sendPacketsForever() error {
 				}
 
 				g.pingTicker.Reset()
+
+				// The pong timer must not run without the peer
+				// having been asked anything: the next regular
+				// resend may be further away than the pong
+				// timeout. So the queue is resent right away
+				// (unless that has just been done).
+				if err := resendQueue(); err != nil {
+					return err
+				}
 
 			case <-g.pongTicker.Ticks():
 				return errKeepaliveTimeout
